@@ -1072,6 +1072,66 @@ def g_metaf(rng):
     return f"meta {a} {b} {rng.randrange(1, 10**9)}" + (f" {e}" if e in ("0", "1") else "")
 
 
+# ---------------------------------------------------------------- exhaustive small scopes (thorough tier)
+def enum_tas(nstates=2, max_rules=3, alphabet=((0, 0), (3, 1), (4, 2))):
+    """every automaton over the alphabet with states 0..nstates-1, at most max_rules rules, any final set"""
+    st = list(range(nstates))
+    rules = []
+    for f, rk in alphabet:
+        for kids in itertools.product(st, repeat=rk):
+            for p in st:
+                rules.append((f, tuple(kids), p))
+    out = []
+    for k in range(max_rules + 1):
+        for rs in itertools.combinations(rules, k):
+            for fm in range(1 << nstates):
+                out.append(TA(list(rs), [q for q in st if (fm >> q) & 1]))
+    return out
+
+
+def enum_nfas(nstates=2, max_trans=2, nsyms=2):
+    st = list(range(nstates))
+    trans = [(a, s, b) for a in st for s in range(nsyms) for b in st]
+    out = []
+    for k in range(max_trans + 1):
+        for ts in itertools.combinations(trans, k):
+            for sm in range(1 << nstates):
+                for fm in range(1 << nstates):
+                    out.append(NFA(list(ts), [q for q in st if (sm >> q) & 1], [q for q in st if (fm >> q) & 1]))
+    return out
+
+
+def enumerated(prop):
+    """(description, cases) of the completely enumerated small scope of a property, or None"""
+    if prop == "C03":
+        tas = enum_tas(2, 3)
+        return ("all automata over {a/0, f/1, g/2} with 2 states, ≤ 3 rules, any final set", [f"trim {a.tok()}" for a in tas])
+    if prop == "C15":
+        tas = enum_tas(2, 3)
+        return ("all automata over {a/0, f/1, g/2} with 2 states, ≤ 3 rules, any final set", [f"cand {a.tok()}" for a in tas])
+    if prop == "C05":
+        tas = enum_tas(2, 3)
+        return ("all automata over {a/0, f/1, g/2} with 2 states, ≤ 3 rules, any final set", [f"reduce {a.tok()}" for a in tas])
+    if prop == "C01":
+        tas = [a for a in enum_tas(2, 2) if a.finals]
+        return ("all ordered pairs of automata over {a/0, f/1, g/2} with 2 states, ≤ 2 rules, non-empty final set",
+                [f"incl {a.tok()} {b.tok()}" for a in tas for b in tas])
+    if prop == "C07":
+        tas = [a for a in enum_tas(2, 2) if a.finals and a.rules]
+        tas = tas[::3]
+        return ("every third automaton (in enumeration order) over {a/0, f/1, g/2} with 2 states, 1–2 rules, non-empty final set: all ordered pairs",
+                [f"bddincl {a.tok()} {b.tok()}" for a in tas for b in tas])
+    if prop == "C09":
+        ns = [n for n in enum_nfas(2, 2, 2) if n.starts and n.finals]
+        return ("all ordered pairs of NFAs over {a,b} with 2 states, ≤ 2 transitions, non-empty start and final sets",
+                [f"nfah def:{a.tok()} def:{b.tok()} incl:0:1" for a in ns for b in ns])
+    if prop == "C06":
+        tas = enum_tas(2, 3, alphabet=((0, 0), (1, 2)))
+        return ("all automata over {s0/0, s1/2} with 2 states, ≤ 3 rules, any final set; alphabet {s0/0, s1/2, s2/0}",
+                [f"compl {a.tok()} 0,2,0" for a in tas])
+    return None
+
+
 GENERATORS = {
     "meta": g_meta, "metaf": g_metaf,
     "parse": g_parse,
